@@ -78,7 +78,7 @@ BOUNDS = {
                          "t in {int, (g, int)}; all constants in [0, 1]",
                   bottom_up="1-2 rules from 5 fixed rules ((g,x)->x, (f,x,x)->(g,x), (g,c)->1, (f,(g,x),y)->(f,x,y), c->(g,0)), 5 subject shapes of depth <= 2"),
     "thorough": dict(constants="pattern and term constants in [0, 2] unless stated",
-                     one_rule="as quick without the restriction on (f, (f,..), (f,..))",
+                     one_rule="as quick without the restriction on (f, (f,..), (f,..)); second family with subject leaves {int, 'a'}, all constants in [0, 1]",
                      two_rules="s in {int, x, y, (g, int), (g, x)}, t in {int, (g, int), (g, (g, int)), (f, int, int)}",
                      strings="as quick plus int constants in the lhs; second family with (g, leaf) allowed in both arguments, constants in [0, 1]",
                      edge="constants in [0, 3]", arity3="constants in [0, 2]", bottom_up="pattern constants [0, 2], term constants [0, 3], 7 subject shapes"),
@@ -580,6 +580,7 @@ def obligations(tier):
         obs.append(ob_bottom_up(1, 2, BU_TERMS))
     else:
         obs.append(ob_one_rule(2, 2, [INT], "int-terms"))
+        obs.append(ob_one_rule(1, 1, [INT, S("a")], "int+str-terms"))
         obs.append(ob_two_rules(2, 2, [INT, S("x"), S("y"), L((g, INT)), L((g, "x"))],
                                 [INT, L((g, INT)), L((g, (g, INT))), L((f, INT, INT))], "f-rooted"))
         obs.append(ob_strings(2, False, True))
